@@ -5,6 +5,7 @@
   PROPERTY THEOREMS ONLY (helper lemmas: Proofs/Lemmas/Sort.lean, Proofs/Lemmas/Match.lean).
 -/
 import Proofs.Lemmas.Compose
+import Proofs.C07
 
 namespace C02
 open Jesse Jesse.Eng Jesse.Gen MatchLemmas ComposeLemmas
@@ -113,6 +114,87 @@ theorem market_queue_drained (fuel : Nat) (e : Engine M) (h : (executePendingMar
     exact hnil
   · simp only [h0] at *
     exact market_go_drained u fuel e 0 h
+
+/-! ### the minute candle handed to the matching loop IS valid (normal simulator, whole runs)
+
+`resting_order_never_left_in_range` and `sorted_head_first_on_path` assume a valid minute candle.  The simulator does
+not hand the input row to the loop but the row after `_get_fixed_jumped_candle`, written back into the input array.
+For input arrays of valid candles that row is valid at every minute of every run, whatever the strategies do. -/
+
+def AllValid (ins : List (List Candle)) : Prop := ∀ cs ∈ ins, ∀ k ∈ cs, k.Valid
+
+theorem getD_valid (ins : List (List Candle)) (hv : AllValid ins) (sym : Nat) : ∀ k ∈ ins.getD sym [], k.Valid := by
+  intro k hk
+  rw [List.getD_eq_getElem?_getD] at hk
+  cases h : ins[sym]? with
+  | none => rw [h] at hk; simp at hk
+  | some cs => rw [h] at hk; exact hv cs (List.mem_of_getElem? h) k hk
+
+theorem fixedRow_valid (cs : List Candle) (i : Nat) (c : Candle) (hv : ∀ k ∈ cs, k.Valid) (h : fixedRow cs i = some c) :
+    c.Valid := by
+  unfold fixedRow at h
+  cases hi : cs[i]? with
+  | none => rw [hi] at h; simp at h
+  | some x =>
+    have hx : x.Valid := hv x (List.mem_of_getElem? hi)
+    rw [hi] at h
+    simp only at h
+    by_cases h0 : i = 0
+    · rw [if_pos h0] at h; injection h with h; rw [← h]; exact hx
+    · rw [if_neg h0] at h
+      cases hp : cs[i - 1]? with
+      | none => rw [hp] at h; injection h with h; rw [← h]; exact hx
+      | some p => rw [hp] at h; injection h with h; rw [← h]; exact (C07.fix_jump_bounds p x hx).1
+
+theorem set_valid (ins : List (List Candle)) (hv : AllValid ins) (sym : Nat) (cs' : List Candle)
+    (h' : ∀ k ∈ cs', k.Valid) : AllValid (ins.set sym cs') := by
+  intro cs hcs k hk
+  rcases List.mem_or_eq_of_mem_set hcs with h | h
+  · exact hv cs h k hk
+  · rw [h] at hk; exact h' k hk
+
+theorem symStep_keeps_valid (fuel i : Nat) (acc : Engine M × List (List Candle)) (sym : Nat) (hv : AllValid acc.2) :
+    AllValid (symStep u fuel i acc sym).2 := by
+  unfold symStep
+  split
+  · exact hv
+  · split
+    · exact hv
+    · rename_i c hc
+      apply set_valid _ hv
+      intro k hk
+      rcases List.mem_or_eq_of_mem_set hk with h | h
+      · exact getD_valid _ hv sym k h
+      · rw [h]; exact fixedRow_valid _ i c (getD_valid _ hv sym) hc
+
+/-- the candle `symStep` hands to `simulateMinute` (and so to the matching loop) is valid -/
+theorem minute_candle_valid (i : Nat) (ins : List (List Candle)) (sym : Nat) (c : Candle) (hv : AllValid ins)
+    (h : fixedRow (ins.getD sym []) i = some c) : c.Valid :=
+  fixedRow_valid _ i c (getD_valid _ hv sym) h
+
+theorem fold_symStep_keeps_valid (fuel i : Nat) (syms : List Nat) (acc : Engine M × List (List Candle)) (hv : AllValid acc.2) :
+    AllValid (syms.foldl (symStep u fuel i) acc).2 := by
+  induction syms generalizing acc with
+  | nil => exact hv
+  | cons s ss ih => exact ih _ (symStep_keeps_valid u fuel i acc s hv)
+
+theorem stepAt_keeps_valid (fuel : Nat) (ins : List (List Candle)) (e : Engine M) (i : Nat) (hv : AllValid ins) :
+    AllValid (stepAt u fuel ins e i).2 := by
+  unfold stepAt
+  split
+  · exact hv
+  · exact fold_symStep_keeps_valid u fuel i _ _ hv
+
+/-- VALID INPUT STAYS VALID over any number of iterations of the normal simulator: every minute candle of the run is
+    valid, so the hypotheses of the matching theorems hold at every minute -/
+theorem runStepN_keeps_valid (fuel : Nat) (ins : List (List Candle)) (e : Engine M) (n : Nat) (hv : AllValid ins) :
+    AllValid (runStepN u fuel ins e n).2 := by
+  unfold runStepN
+  induction n with
+  | zero => simpa using hv
+  | succ n ih =>
+    rw [List.range_succ, List.foldl_append]
+    exact stepAt_keeps_valid u fuel _ _ n ih
 
 end C02
 
